@@ -76,9 +76,11 @@ def consumeUntil (endc : Nat) : Nat → Bytes → Option (Bytes × Bytes)
 
 /-- strings.Replace(value, "\\`", "`", -1). -/
 def unescapeBacktick : Bytes → Bytes
-  | 0x5C :: 0x60 :: rest => 0x60 :: unescapeBacktick rest
-  | c :: rest => c :: unescapeBacktick rest
   | [] => []
+  | [c] => [c]
+  | c :: d :: rest =>
+    if c = 0x5C ∧ d = 0x60 then 0x60 :: unescapeBacktick rest
+    else c :: unescapeBacktick (d :: rest)
 
 /-- consumeRawStringLiteral after the opening quote: the loop
     `for current != '\'' && peek() != eof` with the `\'` escape. -/
